@@ -17,11 +17,15 @@ RULE = ('seeded generation of (packet type 0..6) x (16 payload classes) x '
         '(every encode-call pattern over {binary,text} channel of length 1..4, '
         'sampled 5..6); a case is non-trivial when a contract was evaluated on '
         'it; distinct = distinct (type, payload class, call pattern) triples '
-        'plus distinct (class, decoded-kind) pairs of the round trip')
+        'plus distinct (class, decoded-kind) pairs of the round trip; plus an '
+        'ambient slice: one Packet object broadcast to a WebSocket and a '
+        'polling session of the real servers in both orders with the '
+        'contracts installed')
 ASSUMPTIONS = ['reference encoder/decoder in vf/gen.py is a faithful reading '
                'of the statement', 'stdlib json and base64 are correct',
                'icontract evaluates the post-condition on every call']
-REQUIRED = ['encode_post', 'decode_post', 'ctor_guard', 'roundtrip']
+REQUIRED = ['encode_post', 'decode_post', 'ctor_guard', 'roundtrip',
+            'ambient_broadcasts']
 SHARD_TIMEOUT = {'quick': 300, 'thorough': 1800}
 
 _state = {'rec': None, 'case': None, 'installed': False}
@@ -162,6 +166,58 @@ def run_case(rec, ptype, cls, data, pattern):
         rec.key('rt/%s/%s' % (cls, type(back.data).__name__))
 
 
+def ambient(rec, seed, n):
+    """One Packet object broadcast to a WebSocket session and a polling
+    session in both orders, on the real servers, with the contracts on: each
+    client must read the representation of its own channel kind."""
+    from engineio import packet
+    from vf import scen
+    from vf.simbase import decode_payload
+    rng = gen.mkrng('c01amb', seed)
+    for i in range(n):
+        srv = 'TA'[i % 2]
+        order = (i // 2) % 2
+        data = gen.rbytes(rng, 0, 40) if i % 3 else \
+            {'k': gen.rtext(rng, 0, 5)}
+        case = {'ambient': True, 'srv': srv, 'order': order,
+                'data': gen.jsonable(data)}
+        _state['case'] = case
+        rec.evaluations += 1
+        rec.count('ambient_broadcasts')
+        sim = scen.make_sim(srv)
+        try:
+            hp = sim.open_polling()
+            hw = sim.open_ws()
+            pkt = packet.Packet(packet.MESSAGE, data=data)
+            sids = [hp.sid, hw.sid] if order == 0 else [hw.sid, hp.sid]
+            for sid in sids:
+                sim.app_call('send_packet', sid, pkt)
+                sim.quiesce()
+            t = sim.poll(hp)
+            sim.quiesce()
+            want = gen.expected_roundtrip(data)
+            try:
+                got_poll = [d for tp, d in decode_payload(t.text())
+                            if tp == 4]
+            except Exception as e:
+                got_poll = ['<undecodable polling body %r: %r>' % (
+                    (t.body or b'')[:40], e)]
+            frames = [f['frame'] for f in hw.ws.frames[1:]]
+            want_frame = gen.ref_encode(4, data, False)
+            if len(got_poll) != 1 or not gen.same(got_poll[0], want):
+                rec.viol('ambient-polling-representation', 'polling client '
+                         'read %r, expected %r (server %s, order %d)' % (
+                             got_poll, want, srv, order), case)
+            if frames != [want_frame]:
+                rec.viol('ambient-websocket-representation', 'websocket '
+                         'client got frames %r, expected %r (server %s, order '
+                         '%d)' % (frames, [want_frame], srv, order), case)
+            rec.key('ambient/%s/%d/%s' % (srv, order,
+                                          type(data).__name__))
+        finally:
+            sim.teardown()
+
+
 def plan(tier, seed):
     n = 16 if tier == 'thorough' else 8
     per = 180000 if tier == 'thorough' else 15000
@@ -175,6 +231,8 @@ def run_shard(spec):
     rng = gen.mkrng('c01', spec['seed'], spec['shard'])
     classes = gen.payload_classes()
     names = sorted(classes)
+    if spec['shard'] == 1:
+        ambient(rec, spec['seed'], 60)
     # systematic part: every (type, class, pattern<=4) once per shard 0
     if spec['shard'] == 0:
         for ptype in range(7):
@@ -203,6 +261,10 @@ def replay(case):
     install()
     rec = Rec()
     _state['rec'] = rec
+    if case.get('ambient'):
+        ambient(rec, 1, 8)
+        _state['rec'] = None
+        return rec.violations
     run_case(rec, case['type'], case['class'], gen.unjsonable(case['data']),
              tuple(case['pattern']))
     _state['rec'] = None
